@@ -3,6 +3,7 @@ import TongoProofs.Lemmas.Message
 import TongoProofs.Lemmas.MessageHash
 import TongoProofs.Lemmas.MessageTlb
 import TongoProofs.Lemmas.MessageHeap
+import TongoProofs.Lemmas.SourceBocPinned
 import TongoProofs.C01
 import TongoProofs.C02
 import TongoProofs.C04
@@ -34,6 +35,18 @@ theorem msg_hash_is_cell_hash (fuel : Nat) (d : Dec) (p : Nat) (c : Cell) (mc : 
       (c.reprHash H).bind fun h =>
         (decodeMsg (rowStore d.heap.rows) ⟨mc.row.bits, mc.row.refs⟩).bind fun m => .ok ⟨h, m⟩ :=
   unmarshalMessageH_eq H fuel d p c mc hv ht hp
+
+/-- …composed with C02 `reprHash_eq_spec` ON THE HEAP LEVEL (AUDIT2 B14: C02's `msg_tx_hash_is_spec` goes through the
+tree-level lemmas): for a well-formed source tree within the depth limit the hash reported by Message.UnmarshalTLB on a
+mutable cell, in any cursor state and with any valid hasher, is the representation hash of the TON DEFINITION
+(`Spec.reprHash`), and hashing cannot fail. -/
+theorem msg_hash_is_spec_hash (fuel : Nat) (d : Dec) (p : Nat) (c : Cell) (mc : MsgCell)
+    (hv : d.Valid H) (ht : Memo.tree d.heap.rows fuel p = some c) (hp : d.heap p = some mc)
+    (hwf : Spec.WFExotic c) (hd : Spec.tooDeep c = false) :
+    outFst (unmarshalMessageH H fuel d p) =
+      (decodeMsg (rowStore d.heap.rows) ⟨mc.row.bits, mc.row.refs⟩).bind fun m => .ok ⟨Spec.reprHash H c, m⟩ := by
+  rw [msg_hash_is_cell_hash H fuel d p c mc hv ht hp, C02.reprHash_eq_spec H c hwf hd]
+  rfl
 
 /-- **Independent of the cursors and of the hasher.** Two decoders over the same cells (same rows) — one with the cell
 and all its descendants in any cursor state and a hasher carrying any valid memo table, the other rewound and
@@ -355,35 +368,104 @@ example :
     normDest (.std none 0 (List.replicate 32 0)) ≠ normDest (.std none 1 (List.replicate 32 0)) := by
   refine ⟨by decide +kernel, by decide +kernel, by decide⟩
 
-/-- **The source BOC parses back to the source cell with the reported hash** — through C01 `roundtrip_go_writer`: the
-whole Go writer (the order computed by importCell/reorderCells/revisit, proved valid by C01 `order_valid`, then the
-header arithmetic of serializeBoc) applied to the source cell with idx = crc = cacheBits = false, read back by the
-model of the Go reader. The source is given as any table `(t, root)` in a valid layout that unfolds to the captured
-cell. Premises: `hk` — the de-duplication key of the writer (the hex representation hash) identifies the sub-cells,
-i.e. no hash collision among the cells of this one source; the size limits of the format (fewer than 2²⁴ cells, the
-output is a Go slice). -/
+/-- The Go writer succeeds on the source cell: for every valid presentation `(t, root)` of it and every key that
+identifies its sub-cells, the ordering of importCell/reorderCells/revisit returns some `o` and `serializeBocModel`
+some bytes (C01 `order_valid`). These are the `o` and `bs` that `source_boc_roundtrip` speaks about. -/
+theorem source_boc_writer_succeeds {K : Type} [BEq K] [Hashable K] [LawfulBEq K]
+    (t : Table) (root : Nat) (key : Nat → Option K) (hv : Boc.ValidLayout t [root]) (hk : Boc.Order.KeyInjOn t key) :
+    ∃ (o : Boc.Order.Ordered) (bs : Boc.Bytes), Boc.Order.orderWith t key Boc.Order.goSpecial [root] = .ok o ∧
+      Boc.Order.serializeBocModel t key [root] false false false = .ok bs :=
+  SourceBoc.writer_total t root key false false false hv hk
+
+/-- **The source BOC parses back to the source cell with the reported hash.** Stated for THE order `o` that the model
+of importCell/reorderCells/revisit returns (`hord`) and THE bytes `bs` that the writer model returns (`hser`) — no
+existential witness, no guard inside the conclusion: the model of the Go reader applied to `bs` returns exactly
+`(o.table, o.roots)`; its one root unfolds to the decoded cell `c`; the representation hash of `c` is the reported
+hash. The source is given as any table `(t, root)` in a valid layout that unfolds to the captured cell. Premises: `hk` —
+the de-duplication key of the writer (the hex representation hash) identifies the sub-cells, i.e. no hash collision
+among the cells of this one source; `hsize` — the size limit of the format as a condition on the INPUT: the source cell
+has fewer than 2²⁴ structurally distinct sub-cells (`SourceBoc.SubCellsBelow`; implied by `t.size < 2²⁴`,
+`SourceBoc.subCellsBelow_of_size`). That the output fits a Go slice is derived, not assumed. Built from C01's pieces
+(`orderWith_valid`, `OrderValid.once/sub`, `C01.roundtrip`) in `Lemmas/SourceBocPinned.lean`. -/
 theorem source_boc_roundtrip {K : Type} [BEq K] [Hashable K] [LawfulBEq K]
     (c : Cell) (tx : TxCapture) (h : captureTx H c = .ok tx)
     (t : Table) (root : Nat) (key : Nat → Option K) (hv : Boc.ValidLayout t [root]) (hk : Boc.Order.KeyInjOn t key)
-    (hsrc : Table.unfold t (t.size + 1) root = some tx.source) :
-    ∃ (o : Boc.Order.Ordered) (bs : Boc.Bytes), Boc.Order.serializeBocModel t key [root] false false false = .ok bs ∧
-      (o.table.size < 16777216 → bs.length < Boc.two63 → Boc.parseBoc bs = .ok (o.table, o.roots)) ∧
+    (hsrc : Table.unfold t (t.size + 1) root = some tx.source)
+    (hsize : SourceBoc.SubCellsBelow tx.source 16777216)
+    (o : Boc.Order.Ordered) (bs : Boc.Bytes)
+    (hord : Boc.Order.orderWith t key Boc.Order.goSpecial [root] = .ok o)
+    (hser : Boc.Order.serializeBocModel t key [root] false false false = .ok bs) :
+    Boc.parseBoc bs = .ok (o.table, o.roots) ∧
       o.roots.map (Table.unfold o.table (o.table.size + 1)) = [some c] ∧ c.reprHash H = .ok tx.hash := by
   obtain ⟨hh, hs⟩ := tx_capture_tree_level H c tx h
-  obtain ⟨o, bs, _, hser, hval, hparse⟩ := C01.roundtrip_go_writer t [root] key false false false hv hk
-  have hroots : o.roots.map (Table.unfold o.table (o.table.size + 1)) = [some c] := by
-    rw [hval.roots_eq]; simp [hsrc, hs]
-  have hlen : o.roots.length = 1 := by
-    have := congrArg List.length hroots
-    simpa using this
-  have hsize : 1 ≤ o.table.size := by
-    match ho : o.roots, hlen with
-    | [r], _ =>
-      have := hval.valid.1.2.1 r (by rw [ho]; simp)
-      omega
-  refine ⟨o, bs, hser, ?_, hroots, hh⟩
-  intro hn hl
-  exact hparse hn (by simp) (by simpa using hsize) hl
+  obtain ⟨hparse, _, _, r, hr, _, hru⟩ :=
+    SourceBoc.writer_pinned t root key false false false hv hk tx.source hsrc hsize o bs hord hser
+  refine ⟨hparse, ?_, hh⟩
+  rw [hr]; simp [hru, hs]
+
+/-- Regression for AUDIT2 B2. The auditor proved the previous statement from "the writer returned some bytes" alone by
+CHOOSING a witness table padded to 2²⁴ rows, which made the guarded parse clause vacuous. In the statement above there
+is nothing to choose and no guard, and that proof does not apply: under the same hypotheses (1) the writer's table has
+fewer than 2²⁴ rows, (2) every table and roots the reader's result could be claimed for ARE the writer's, (3) in
+particular the claim is false for every padded table. -/
+example {K : Type} [BEq K] [Hashable K] [LawfulBEq K]
+    (c : Cell) (tx : TxCapture) (h : captureTx H c = .ok tx)
+    (t : Table) (root : Nat) (key : Nat → Option K) (hv : Boc.ValidLayout t [root]) (hk : Boc.Order.KeyInjOn t key)
+    (hsrc : Table.unfold t (t.size + 1) root = some tx.source)
+    (hsize : SourceBoc.SubCellsBelow tx.source 16777216)
+    (o : Boc.Order.Ordered) (bs : Boc.Bytes)
+    (hord : Boc.Order.orderWith t key Boc.Order.goSpecial [root] = .ok o)
+    (hser : Boc.Order.serializeBocModel t key [root] false false false = .ok bs) :
+    o.table.size < 16777216 ∧
+    (∀ (t' : Table) (roots' : List Nat), Boc.parseBoc bs = .ok (t', roots') → t' = o.table ∧ roots' = o.roots) ∧
+    (∀ (F : Table) (roots' : List Nat), 16777216 ≤ F.size → Boc.parseBoc bs ≠ .ok (F, roots')) := by
+  have hp := (source_boc_roundtrip H c tx h t root key hv hk hsrc hsize o bs hord hser).1
+  have hn := (SourceBoc.writer_pinned t root key false false false hv hk tx.source hsrc hsize o bs hord hser).2.2.1
+  refine ⟨hn, ?_, ?_⟩
+  · intro t' roots' h'
+    rw [hp] at h'
+    injection h' with e
+    injection e with e1 e2
+    exact ⟨e1.symm, e2.symm⟩
+  · intro F roots' hF h'
+    rw [hp] at h'
+    injection h' with e
+    injection e with e1 _
+    rw [← e1] at hF
+    omega
+
+/-- the hypotheses of `source_boc_roundtrip` are satisfiable together (non-vacuity): C01's two-row table `exT` whose
+root refers twice to the same child, keyed by the row number, a constant 32-byte `H`; the `o` and `bs` are the ones the
+writer returns (`source_boc_writer_succeeds`) -/
+example : ∃ (c : Cell) (tx : TxCapture) (o : Boc.Order.Ordered) (bs : Boc.Bytes),
+    captureTx (fun _ => List.replicate 32 0) c = .ok tx ∧
+    Boc.ValidLayout Boc.Order.exT [0] ∧ Boc.Order.KeyInjOn Boc.Order.exT (fun i => some i) ∧
+    Table.unfold Boc.Order.exT (Boc.Order.exT.size + 1) 0 = some tx.source ∧
+    SourceBoc.SubCellsBelow tx.source 16777216 ∧
+    Boc.Order.orderWith Boc.Order.exT (fun i => some i) Boc.Order.goSpecial [0] = .ok o ∧
+    Boc.Order.serializeBocModel Boc.Order.exT (fun i => some i) [0] false false false = .ok bs := by
+  obtain ⟨o, bs, ho, hs⟩ :=
+    source_boc_writer_succeeds Boc.Order.exT 0 (fun i => some i) Boc.Order.exT_valid Boc.Order.exT_key
+  have hu : Table.unfold Boc.Order.exT (Boc.Order.exT.size + 1) 0
+      = some (Cell.mk 0 0 [true] [Cell.mk 0 0 [] [], Cell.mk 0 0 [] []]) := by rfl
+  have hcap : ∃ tx, captureTx (fun _ => List.replicate 32 0)
+      (Cell.mk 0 0 [true] [Cell.mk 0 0 [] [], Cell.mk 0 0 [] []]) = .ok tx ∧
+      tx.source = Cell.mk 0 0 [true] [Cell.mk 0 0 [] [], Cell.mk 0 0 [] []] := by
+    unfold captureTx
+    cases hh : (Cell.mk 0 0 [true] [Cell.mk 0 0 [] [], Cell.mk 0 0 [] []]).reprHash (fun _ => List.replicate 32 0) with
+    | ok x => exact ⟨_, rfl, rfl⟩
+    | err e =>
+      have : ((Cell.mk 0 0 [true] [Cell.mk 0 0 [] [], Cell.mk 0 0 [] []]).reprHash
+        (fun _ => List.replicate 32 0)).isOk = true := by decide +kernel
+      rw [hh] at this; cases this
+    | panic e =>
+      have : ((Cell.mk 0 0 [true] [Cell.mk 0 0 [] [], Cell.mk 0 0 [] []]).reprHash
+        (fun _ => List.replicate 32 0)).isOk = true := by decide +kernel
+      rw [hh] at this; cases this
+  obtain ⟨tx, htx, hsrc⟩ := hcap
+  refine ⟨_, tx, o, bs, htx, Boc.Order.exT_valid, Boc.Order.exT_key, by rw [hsrc]; exact hu, ?_, ho, hs⟩
+  exact SourceBoc.subCellsBelow_of_size Boc.Order.exT 0 Boc.Order.exT_valid tx.source (by rw [hsrc]; exact hu) _
+    (by decide)
 
 /-- **SourceBoc and Hash track the last decode.** One Transaction variable, reused for any sequence of decodes with
 `SourceBoc()` and `Hash()` calls interleaved in any order, starting from any state: afterwards `Hash()` is the
@@ -411,5 +493,50 @@ theorem source_boc_and_hash_do_not_change_state (v : TxVar) (ops : List TxOp)
     show TxVar.run H (TxVar.step H v op) rest = v
     rw [h1]
     exact ih v (fun o ho => hro o (by simp [ho]))
+
+/-- **SourceBoc() end to end, with the concrete Go writer.** `serialize` of the two theorems above instantiated with
+`SourceBoc.goSourceBoc H` (C01's whole writer model on the cell tree, de-duplicated by the representation hash like
+Go). One Transaction variable after ANY sequence of decodes / `SourceBoc()` / `Hash()` calls whose last successful
+decode was of `c`: if `SourceBoc()` returns `bs` and the writer's ordering of `c` is `o`, the reader model applied to
+`bs` returns exactly `(o.table, o.roots)`, the root unfolds to `c`, and `Hash()` is the representation hash of `c`.
+Premises, all about the INPUT cell: within the limits of the format (`CellOK`, depth ≤ 1024), level 0 (no pruned
+branch — for cells with pruned branches use `source_boc_roundtrip` with a key known to identify the sub-cells), no hash
+collision among its own sub-cells, fewer than 2²⁴ distinct sub-cells; `H` returns 32 bytes. -/
+theorem source_boc_end_to_end (hlen32 : ∀ x, (H x).length = 32) (ops : List TxOp) (v : TxVar) (c : Cell)
+    (hlast : lastDecoded H ops = some c)
+    (hok : Boc.Order.CellOK c) (hd : Boc.Order.cellDepth c ≤ maxDepth) (h0 : Boc.Order.Lvl0 (Boc.Order.cellTable c))
+    (cf : CollisionFree H (Boc.Order.reprsOf H (Boc.Order.cellTable c)))
+    (hsize : SourceBoc.SubCellsBelow c 16777216)
+    (o : Boc.Order.Ordered) (bs : Boc.Bytes)
+    (hord : Boc.Order.orderWith (Boc.Order.cellTable c) (Boc.Order.goKey H (Boc.Order.cellTable c))
+      Boc.Order.goSpecial [0] = .ok o)
+    (hser : TxVar.sourceBoc (SourceBoc.goSourceBoc H) (TxVar.run H v ops) = .ok bs) :
+    Boc.parseBoc bs = .ok (o.table, o.roots) ∧
+      o.roots.map (Table.unfold o.table (o.table.size + 1)) = [some c] ∧
+      ∃ t, TxVar.run H v ops = some t ∧ c.reprHash H = .ok t.hash := by
+  obtain ⟨t, hrun, hh, hsb⟩ := source_boc_tracks_last_decode H (SourceBoc.goSourceBoc H) ops v c hlast
+  rw [hsb] at hser
+  obtain ⟨hparse, hroots, _⟩ := SourceBoc.goSourceBoc_pinned H hlen32 c hok hd h0 cf hsize o bs hord hser
+  exact ⟨hparse, hroots, t, hrun, hh⟩
+
+/-- …and on the heap level (mutable cells with cursors, a decoder with or without hasher): the lazy `SourceBoc()` of a
+captured transaction, called in ANY later decoder state with the same rows, with the concrete Go writer. -/
+theorem source_boc_of_mutable_cell_parses_back (hlen32 : ∀ x, (H x).length = 32) (fuel : Nat) (d : Dec) (p : Nat)
+    (c : Cell) (hv : d.Valid H) (ht : Memo.tree d.heap.rows fuel p = some c)
+    (t : TxCaptureH) (d' : Dec) (e : captureTxH H fuel d p = .ok (t, d'))
+    (later : Dec) (hlater : later.heap.rows = d.heap.rows)
+    (hok : Boc.Order.CellOK c) (hd : Boc.Order.cellDepth c ≤ maxDepth) (h0 : Boc.Order.Lvl0 (Boc.Order.cellTable c))
+    (cf : CollisionFree H (Boc.Order.reprsOf H (Boc.Order.cellTable c)))
+    (hsize : SourceBoc.SubCellsBelow c 16777216)
+    (o : Boc.Order.Ordered) (bs : Boc.Bytes)
+    (hord : Boc.Order.orderWith (Boc.Order.cellTable c) (Boc.Order.goKey H (Boc.Order.cellTable c))
+      Boc.Order.goSpecial [0] = .ok o)
+    (hser : outFst (t.sourceBoc (SourceBoc.goSourceBoc H) fuel later) = .ok bs) :
+    Boc.parseBoc bs = .ok (o.table, o.roots) ∧
+      o.roots.map (Table.unfold o.table (o.table.size + 1)) = [some c] ∧ c.reprHash H = .ok t.hash := by
+  obtain ⟨hsb, hh⟩ := source_boc_of_mutable_cell H (SourceBoc.goSourceBoc H) fuel d p c hv ht t d' e later hlater
+  rw [hsb] at hser
+  obtain ⟨hparse, hroots, _⟩ := SourceBoc.goSourceBoc_pinned H hlen32 c hok hd h0 cf hsize o bs hord hser
+  exact ⟨hparse, hroots, hh⟩
 
 end Tongo.C16
